@@ -72,7 +72,11 @@ def gen(cls, idx, rng, tier):
         length = rng.randint(0, 4)
     elif rng.random() < .01:
         length = rng.choice([65535, 65536, 65537, 70001])   # past 16 bits
-    base = 0x60200000 + 4 * rng.randrange(1000) + rng.randrange(4)
+    elif rng.random() < .06:
+        length = rng.choice([1024, 2048, 4096, 1500, 3000,
+                             rng.randint(1000, 5000)])
+    base = 0x60200000 + 4 * rng.randrange(1000) + \
+        (rng.randrange(4) if length < 1000 or rng.random() < .3 else 0)
     via_alloc = rng.random() < .4
     if via_alloc:
         base = None
@@ -95,8 +99,28 @@ def gen(cls, idx, rng, tier):
         elif k < .62:
             n = rng.choice([0, 1, 2, 7, length, length + 1, 3 * length + 2,
                             rng.randint(0, 300)])
-            ops.append(("write", v, bytes(rng.getrandbits(8)
-                                          for _ in range(min(n, 1500)))))
+            pat = rng.random()
+            if length >= 1000 and rng.random() < .5:
+                n = rng.choice([length, 1024, 1028, 2048, length - 4,
+                                rng.randint(900, length)])
+            if length >= 1000 and pat < .3:
+                # (word-aligned as a rule: that is where a machine-side
+                # fill could stand in for the transfer)
+                pat = 0
+                if rng.random() < .7:
+                    ops.append(("seek", v, 4 * rng.randrange(3), 0))
+                    n -= n % 4
+            if pat < .12:
+                # a region cleared or preset: one byte value all through
+                data = bytes([rng.choice([0, 0xff, 0x01, rng.getrandbits(8)])
+                              ]) * min(n, 5000)
+            elif pat < .18:
+                data = (bytes(rng.getrandbits(8) for _ in range(4)) *
+                        (min(n, 5000) // 4 + 1))[:min(n, 5000)]
+            else:
+                data = bytes(rng.getrandbits(8)
+                             for _ in range(min(n, 1500)))
+            ops.append(("write", v, data))
         elif (cls == "slicy" and k < .9 or k < .75) and n_views < 7:
             s = rng.choice([None] + edge)
             e = rng.choice([None] + edge)
@@ -174,6 +198,8 @@ def run(case, ctx):
         for cmd, (x, y, p), a, payload in m.cmds[mark[0]:]:
             if cmd in (M.CMD["read"], M.CMD["write"]):
                 out.append((cmd, a[0], a[1]))
+            elif cmd == M.CMD["fill"]:
+                out.append((cmd, a[0], a[2]))
         return out
     mark = [0]
 
